@@ -97,6 +97,26 @@ func VH_winbox_filter() {
 }
 func VH_winbox_user() { run(&l4winbox.MatchWinbox{Modes: []string{"standard"}, Username: "ab"}, 42, false) }
 func VH_rdp()         { run(&l4rdp.MatchRDP{}, 31, false) }
+// VH_rdp_deep: payloads without CR (the CR LF scan forks per byte otherwise) long
+// enough for the negotiation request and the correlation info.
+func VH_rdp_deep() {
+	m := &l4rdp.MatchRDP{}
+	_ = m.Provision(caddy.Context{})
+	d := vapi.Bytes("D", vapi.Param("L", 60))
+	for i := 11; i < len(d); i++ {
+		vapi.Assume(d[i] != '\r')
+	}
+	cx, _ := env.MatchingConn(d, false)
+	layer4.VerifFreeze(cx)
+	ok, err := m.Match(cx)
+	layer4.VerifUnfreeze(cx)
+	vapi.Cover("match returned")
+	if ok {
+		vapi.Cover("deep payload matched")
+	}
+	vapi.Log("verdict", ok, env.ErrClass(err))
+}
+
 func VH_rdp_filter() {
 	run(&l4rdp.MatchRDP{CookieHash: "a", CustomInfoRegexp: "^x"}, 31, false)
 }
@@ -176,7 +196,7 @@ func init() {
 		"VH_socks4_filter": VH_socks4_filter, "VH_socks5": VH_socks5, "VH_socks5_filter": VH_socks5_filter,
 		"VH_proxyproto": VH_proxyproto, "VH_regexp": VH_regexp, "VH_regexp_default": VH_regexp_default,
 		"VH_wireguard": VH_wireguard, "VH_wireguard_zero": VH_wireguard_zero, "VH_winbox": VH_winbox, "VH_winbox_big": VH_winbox_big, "VH_winbox_frombytes": VH_winbox_frombytes,
-		"VH_winbox_filter": VH_winbox_filter, "VH_winbox_user": VH_winbox_user, "VH_rdp": VH_rdp,
+		"VH_winbox_filter": VH_winbox_filter, "VH_winbox_user": VH_winbox_user, "VH_rdp": VH_rdp, "VH_rdp_deep": VH_rdp_deep,
 		"VH_rdp_filter": VH_rdp_filter, "VH_rdp_token": VH_rdp_token,
 	} {
 		vapi.Register("c04."+name, f)
